@@ -193,6 +193,7 @@ func (s *Service) prune(ctx context.Context) {
 		}
 
 		failedSet := make(map[uint64]struct{})
+		prunedBefore := successful
 
 		log.Debugw("pruning block data", "from", headers[0].Height(), "to",
 			headers[len(headers)-1].Height())
@@ -213,6 +214,12 @@ func (s *Service) prune(ctx context.Context) {
 		err = s.updateCheckpoint(s.ctx, lastPrunedHeader.Height(), failedSet)
 		if err != nil {
 			log.Errorw("failed to update checkpoint", "err", err)
+			return
+		}
+
+		if successful == prunedBefore {
+			// nothing in this batch could be pruned, so the next lookup would return the very same
+			// batch again: the failures are recorded and get retried by the next round
 			return
 		}
 
